@@ -1146,8 +1146,18 @@ func c15Lock(c *Ctx, prog *Prog, fcfg *FCfg, flags []string) {
 						[]string{r.MroDir}, r.PsDir, "", nil, true, a.readOnly, nil)
 					var ps *core.Pipestance
 					if a.readOnly {
-						// mrp --inspect only ever re-attaches
+						// mrp --inspect only ever re-attaches, then runs the same loop
+						// as a writer (every mutating step is inhibited by readOnly())
 						ps, err = f.ReattachToPipestance(context.Background())
+						if err == nil && ps != nil {
+							ctx := context.Background()
+							ps.LoadMetadata(ctx)
+							for k := 0; k < 3; k++ {
+								ps.RefreshState(ctx)
+								ps.CheckHeartbeats(ctx)
+								ps.StepNodes(ctx)
+							}
+						}
 					} else {
 						ps, err = f.InvokePipeline()
 						if err != nil {
